@@ -195,6 +195,15 @@ def client_binding(ctx: Ctx, roles) -> None:
         args = [norm(a) for a in c.args] + [f"{k.arg}={norm(k.value)}" for k in c.keywords]
         ok = len(c.args) == 1 and not c.keywords and isinstance(c.args[0], ast.Name) and c.args[0].id in free and c.args[0].id not in rebound
         ctx.ob("C07.R3", hook, "the user's callback receives the connection's reason unchanged", ok, f"called with {args}; parameters supplied by the connection: {free}; rebound in the hook: {rebound}", node=c)
+    # the coroutine the user's callback returns is started on the loop that is running the hook (a task bound to a loop
+    # captured earlier - at construction time, say - may never run: the callback would be "called" but never executed)
+    for c in user_calls:
+        outer = [x for x in own_nodes(hook.node) if isinstance(x, ast.Call) and any(a is c for a in x.args)]
+        for oc in outer:
+            for starter in [f for f in res.callees(hook, oc).funcs if f.cls is client]:
+                mk = [x for x in own_nodes(starter.node) if isinstance(x, ast.Call) and norm(x.func).split(".")[-1] in ("create_eager_task", "create_task", "ensure_future", "Task")]
+                loops_ = [norm(k.value) for x in mk for k in x.keywords if k.arg == "loop" and not (isinstance(k.value, ast.Constant) and k.value.value is None) and norm(k.value) not in ("get_running_loop()", "asyncio.get_running_loop()")]
+                ctx.ob("C07.R1", starter, "the user's stop coroutine is started on the running loop", bool(mk) and not loops_, f"task creation {[norm(x)[:50] for x in mk]} binds the loop {loops_}: captured earlier it need not be the loop that runs the session")
     g = cfg_of(ctx, start)
     ctor_nodes = [n for n in g.reachable() if n.ast is not None and n.kind == "stmt" and any(x is ctors[0] for x in walk_own(n.ast))]
     for c in user_calls:
